@@ -341,7 +341,7 @@ func labPol(e labEnv) {
 	must(err)
 	n := 400
 	if e.thorough() {
-		n = 4000
+		n = 16000
 	}
 	tags := map[string]int{}
 	for i := 0; i < n; i++ {
